@@ -20,6 +20,7 @@ import (
 	"sort"
 	"strconv"
 	"strings"
+	"sync"
 	"time"
 )
 
@@ -92,20 +93,74 @@ func (t Tok) Int() int {
 
 func (t Tok) F() float64 { return parseF(t.Atom) }
 
+// Every slice handed to the library is a view with spare capacity whose cells beyond len hold a
+// sentinel: a callee that appends to (or otherwise writes past the end of) a caller's slice
+// clobbers them. The cells are checked after every operation (see guardsIntact).
+const guardCells = 6
+
+var (
+	guardMu   sync.Mutex
+	fGuards   [][]float64 // full-capacity views
+	iGuards   [][]int
+	fSentinel = math.Float64frombits(0x7ff8dead0000beef)
+)
+
+const iSentinel = -0x5eed5eed
+
 func (t Tok) Fs() []float64 {
-	out := make([]float64, len(t.Arr))
+	n := len(t.Arr)
+	buf := make([]float64, n+guardCells)
 	for i, e := range t.Arr {
-		out[i] = e.F()
+		buf[i] = e.F()
 	}
-	return out
+	for i := n; i < len(buf); i++ {
+		buf[i] = fSentinel
+	}
+	guardMu.Lock()
+	fGuards = append(fGuards, buf)
+	guardMu.Unlock()
+	return buf[:n]
 }
 
 func (t Tok) Ints() []int {
-	out := make([]int, len(t.Arr))
+	n := len(t.Arr)
+	buf := make([]int, n+guardCells)
 	for i, e := range t.Arr {
-		out[i] = e.Int()
+		buf[i] = e.Int()
 	}
-	return out
+	for i := n; i < len(buf); i++ {
+		buf[i] = iSentinel
+	}
+	guardMu.Lock()
+	iGuards = append(iGuards, buf)
+	guardMu.Unlock()
+	return buf[:n]
+}
+
+func resetGuards() {
+	guardMu.Lock()
+	fGuards, iGuards = fGuards[:0], iGuards[:0]
+	guardMu.Unlock()
+}
+
+func guardsIntact() bool {
+	guardMu.Lock()
+	defer guardMu.Unlock()
+	for _, b := range fGuards {
+		for _, x := range b[len(b)-guardCells:] {
+			if math.Float64bits(x) != math.Float64bits(fSentinel) {
+				return false
+			}
+		}
+	}
+	for _, b := range iGuards {
+		for _, x := range b[len(b)-guardCells:] {
+			if x != iSentinel {
+				return false
+			}
+		}
+	}
+	return true
 }
 
 func (t Tok) Intss() [][]int {
@@ -223,7 +278,12 @@ func execLine(line string) (out string) {
 				ch <- res{"panic:" + sanitize(fmt.Sprint(r))}
 			}
 		}()
-		ch <- res{fn(toks[1:])}
+		resetGuards()
+		out := fn(toks[1:])
+		if !guardsIntact() {
+			out = "panic:" + sanitize("the library wrote past the end of a slice passed to it (into the caller's spare capacity)")
+		}
+		ch <- res{out}
 	}()
 	select {
 	case r := <-ch:
